@@ -495,6 +495,13 @@ pub struct MintCase {
     /// 2 = as 1, and the mint's token badge is deleted between creating the pool and offering the mint as reward
     #[serde(default)]
     pub own_mint_reward: u8,
+    /// the OTHER mint of the pool (a plain SPL mint, on either side of the mint under test in canonical order) holds a token badge of
+    /// this config: a badge speaks for its own mint only
+    #[serde(default)]
+    pub partner_badge: bool,
+    /// non-zero: first byte of the key of the mint under test (decides on which side of the partner it lands in canonical order)
+    #[serde(default)]
+    pub key_first_byte: u8,
     /// 0 initialize_pool_v2 (as one of the two mints), 1 initialize_pool_with_adaptive_fee, 2 initialize_reward_v2
     pub offered_to: u8,
 }
@@ -646,8 +653,22 @@ pub fn check_mint(c: &MintCase, l: &mut Local) -> Result<(), String> {
     let ix = w.ix_init_adaptive_fee_tier(cfg, 1064, ts, Pubkey::default(), Pubkey::default(), 3000, &AfConstants::sane(ts));
     w.must("adaptive tier", &ix);
     let other = w.create_spl_mint();
+    if c.partner_badge {
+        let ix = w.ix_init_token_badge(cfg, &other.key);
+        w.must("badge for the partner mint", &ix);
+        l.count("partner_mint_holds_a_badge");
+    }
     // the mint under test
-    let key = if c.native_2022 && c.token2022 { spl_token_2022::native_mint::id() } else { w.fresh_key() };
+    let key = if c.native_2022 && c.token2022 {
+        spl_token_2022::native_mint::id()
+    } else {
+        let mut k = w.fresh_key().to_bytes();
+        if c.key_first_byte != 0 {
+            k[0] = c.key_first_byte;
+        }
+        Pubkey::new_from_array(k)
+    };
+    l.count(if key < other.key { "mint_under_test_is_token_a" } else { "mint_under_test_is_token_b" });
     let admin = w.admin;
     let data = build_mint_bytes(c, &admin);
     let offered = data.clone();
@@ -766,13 +787,13 @@ fn mint_case() -> BoxedStrategy<MintCase> {
         prop_oneof![2 => Just(1u8), 1 => Just(2u8), 1 => Just(0u8)],
         prop_oneof![12 => Just(0u8), 1 => 1u8..40],
         any::<bool>(),
-        (0u8..3, prop_oneof![3 => Just(0u8), 1 => 1u8..4], prop_oneof![1 => Just(0u8), 1 => Just(1u8), 2 => Just(2u8)]),
+        (0u8..3, prop_oneof![3 => Just(0u8), 1 => 1u8..4], prop_oneof![1 => Just(0u8), 1 => Just(1u8), 2 => Just(2u8)], prop_oneof![2 => Just(false), 1 => Just(true)], any::<u8>()),
     )
-        .prop_map(|(token2022, native_2022, freeze_authority, mut extensions, default_state, truncate, badge, (offered_to, foreign, own_mint_reward))| {
+        .prop_map(|(token2022, native_2022, freeze_authority, mut extensions, default_state, truncate, badge, (offered_to, foreign, own_mint_reward, partner_badge, key_first_byte))| {
             // an extension type appears at most once in a mint the token program could have produced
             let mut seen = std::collections::BTreeSet::new();
             extensions.retain(|e| seen.insert(e.ty));
-            MintCase { token2022, native_2022, freeze_authority, extensions, default_state, truncate, badge, foreign, own_mint_reward, offered_to }
+            MintCase { token2022, native_2022, freeze_authority, extensions, default_state, truncate, badge, foreign, own_mint_reward, partner_badge, key_first_byte, offered_to }
         })
         .boxed()
 }
